@@ -205,11 +205,18 @@ class Rule(
         return self
 
     def assert_applies(self, evaluable: EvaluableArchitecture) -> None:
-        self._configuration = self._convert_aliases(self._configuration, evaluable)
-        self._assert_required_configuration_present()
+        # the alias conversion depends on the evaluable, so the rule itself has to keep its original configuration:
+        # otherwise, re-applying the rule to another evaluable would evaluate the configuration converted for the first
+        original_configuration = self._configuration
+        self._configuration = self._convert_aliases(original_configuration, evaluable)
 
-        matcher = self._prepare_rule_matcher()
-        matcher.match(evaluable)
+        try:
+            self._assert_required_configuration_present()
+
+            matcher = self._prepare_rule_matcher()
+            matcher.match(evaluable)
+        finally:
+            self._configuration = original_configuration
 
     def _prepare_rule_matcher(self) -> RuleMatcher:
         module_requirement = ModuleRequirement(
